@@ -24,7 +24,9 @@ JoinIds(attrs) ==      \* several ID values are joined by '-' into one
 RECURSIVE Overwrite(_, _)
 Overwrite(attrs, upd) == IF upd = <<>> THEN attrs ELSE Overwrite(AttrSet(attrs, Head(upd)[1], Head(upd)[2]), Tail(upd))
 GapAttrs(a, b, cfg) == JoinIds(Overwrite(IF cfg.mergeAttrs THEN Merge_Decl(a.attrs, b.attrs, cfg.numeric) ELSE <<>>, cfg.update))
-GapType(a, b, cfg) == IF cfg.newtype = <<>> THEN T_inter \o a.ftype \o <<UNDER>> \o b.ftype ELSE cfg.newtype
+\* new_featuretype=None (cfg.newtype = <<>> and no typeGiven field) names the gap after its neighbours; ANY given text is used as it is - the empty string too
+TypeGiven(cfg) == IF "typeGiven" \in DOMAIN cfg THEN cfg.typeGiven ELSE cfg.newtype # <<>>
+GapType(a, b, cfg) == IF ~TypeGiven(cfg) THEN T_inter \o a.ftype \o <<UNDER>> \o b.ftype ELSE cfg.newtype
 GapStrand(a, b) == IF a.strand = b.strand THEN b.strand ELSE DOTT
 Gap(a, b, cfg) == [seqid |-> b.seqid, start |-> a.end + 1, end |-> b.start - 1, strand |-> GapStrand(a, b), ftype |-> GapType(a, b, cfg),
                    attrs |-> GapAttrs(a, b, cfg)]
